@@ -16,11 +16,21 @@ import (
 
 func init() { core.Register("C06", run) }
 
+func hasImport(sc *sessreal.Scenario) bool {
+	for _, e := range sc.H {
+		if e.Step.Act == "Import" {
+			return true
+		}
+	}
+	return false
+}
+
 func run(c *core.Ctx) {
 	// cedar logs every handshake step at INFO through the default logger
 	slog.SetDefault(slog.New(slog.NewTextHandler(io.Discard, &slog.HandlerOptions{Level: slog.LevelError})))
 	c.Assume("AES-GCM and SHA-256 of the Go standard library are correct; cryptography is symbolic in the model (a requester holds the session key, another key, or none)")
 	c.Assume("virtual time: one tick = 1800 s; the server announces SessionDuration = Duration and SessionLease = Lease ticks (Duration > Lease); after every real step SessionEntry.Expiration() is read back, converted to ticks and compared with the model's expiry, then the entry is replaced (Store, same id, key, policy, lease, tag) by one expiring at now + (expiry - clock) ticks + half a tick; no time.Now() call is intercepted, nothing sleeps")
+	c.Assume("a server-side session also comes into existence by import (model action Import: keyed, authenticated, flagged inherited, expiry = Duration ticks, no lease), realised by MintClaimSession(Lifetime), ImportClaimSession (SessionExpires), ImportFileTransferSession(Duration) and Store of an entry with SetInherited(true); the peer imports the same claim")
 	c.Assume("an unauthenticated session is realised in two ways (alternating): Authentication OPTIONAL on both sides with CLAIMTOBE listed by both (a method is negotiated, no exchange runs), or Authentication NEVER with method NONE")
 	c.Assume("sessions are established by real handshakes (CLAIMTOBE or no authentication; AES or no common cipher); storeSession files them in the process-global cache; three placements are exercised: the harness moves the entry into the server's own SessionCache, or leaves it in the global cache with the server configured with its own (empty) SessionCache (global fallback) or with none; session ids are unique, so parallel scenarios do not see each other's entries")
 	if sessreal.ReplayFile(c, "C06") {
@@ -42,6 +52,10 @@ func run(c *core.Ctx) {
 			return
 		}
 		kit.ModelCheck(c, "SessionCache.tla", mc, tlc.Options{Workers: 12})
+		if !c.Thorough() {
+			// one session that is negotiated or imported, clock long enough for an imported session to expire
+			kit.ModelCheck(c, "SessionCache.tla", "MC_C06_quick_import.cfg", tlc.Options{Workers: 4})
+		}
 	}()
 	// quick: two sessions / life cycles <= 3, and (concurrently) one session / life
 	// cycles <= 5 (establish, renew, idle past the lease, ... then every attack)
@@ -72,7 +86,7 @@ func run(c *core.Ctx) {
 	rng := c.Rand("c06")
 	var jobs []sessreal.Job
 	classes := map[string]int{}
-	placed := 0
+	placed, imported := 0, 0
 	for si, sc := range scs {
 		if si%997 == 0 {
 			c.Sample(sc.H[len(sc.H)-1].Step)
@@ -112,6 +126,14 @@ func run(c *core.Ctx) {
 				}
 			}
 		}
+		// the model's Import step is realised by each of cedar's import / mint calls
+		if hasImport(sc) {
+			for k, via := range []string{"import", "filetrans", "store"} {
+				r := reqs[(si+k)%len(reqs)]
+				jobs = append(jobs, sessreal.Job{Kind: "C06", Sc: sc, V06: sessreal.Variant06{Requester: r, OneOffPos: pos[0], CutFrac: fracs[0], ImportVia: via}})
+				imported++
+			}
+		}
 		// cache placement: every behaviour also with the sessions left in the process-
 		// global cache (where storeSession files them), the server configured with its
 		// own SessionCache (resumption goes through the global fallback) or with none
@@ -120,13 +142,6 @@ func run(c *core.Ctx) {
 				break // the one-session deep life cycles run with the server's own cache only
 			}
 			r := reqs[(si+k)%len(reqs)]
-			if c.Thorough() {
-				for _, r := range reqs {
-					jobs = append(jobs, sessreal.Job{Kind: "C06", Sc: sc, V06: sessreal.Variant06{Requester: r, OneOffPos: pos[0], CutFrac: fracs[0], Placement: pl, AnonNever: (si+k)%2 == 0}})
-					placed++
-				}
-				continue
-			}
 			jobs = append(jobs, sessreal.Job{Kind: "C06", Sc: sc, V06: sessreal.Variant06{Requester: r, OneOffPos: pos[len(pos)-1], CutFrac: fracs[len(fracs)-1], Placement: pl, AnonNever: (si+k)%2 == 0}})
 			placed++
 		}
@@ -136,6 +151,8 @@ func run(c *core.Ctx) {
 	c.Set("abstract_behaviours", len(scs))
 	c.Set("attack_classes", classes)
 	c.Set("cache_placement_executions", placed)
+	c.Set("import_realisation_executions", imported)
+	c.Set("sessions_imported_or_minted", t.S06.Imports)
 	c.Set("real_full_handshakes", t.S06.RealHandshakes)
 	c.Set("real_resumption_attempts", t.S06.Resumes)
 	c.Set("real_replays", t.S06.Replays)
@@ -149,5 +166,5 @@ func run(c *core.Ctx) {
 	c.Set("real_client_declined_to_attempt", t.S06.RealDeclined)
 	c.Set("permitted_divergences", t.Diverged)
 	c.Set("exhaustive", true)
-	c.Set("rule", "behaviours = every distinct (cache state, step) reachable by life-cycle sequences (Establish keyed/key-less x authenticated/anonymous, Tick, Renew, Invalidate, Sweep, legitimate Resume) of bounded length, each followed by every attacking connection (id exact/one-off/unknown x key/wrong key/no key x reply requested or not x same/other address; replay of either recorded direction whole or cut), enumerated by TLC from Gen_SessionCache (mode C06, VIEW without history); each is executed against a real ServerHandshake on a real SessionCache populated by real handshakes (three cache placements: own cache, global cache through the fallback, global cache only), with cedar's own client code (doctored cache entry) and with hand-built frames; abstract classes (which character differs, where a cut falls) expand to concrete members (several in thorough, seeded in quick); non-trivial = more than one step")
+	c.Set("rule", "behaviours = every distinct (cache state, step) reachable by life-cycle sequences (Establish keyed/key-less x authenticated/anonymous, Import (minted / imported session with an expiry), Tick, Renew, Invalidate, Sweep, legitimate Resume) of bounded length, each followed by every attacking connection (id exact/one-off/unknown x key/wrong key/no key x reply requested or not x same/other address; replay of either recorded direction whole or cut), enumerated by TLC from Gen_SessionCache (mode C06, VIEW without history); each is executed against a real ServerHandshake on a real SessionCache populated by real handshakes (three cache placements: own cache, global cache through the fallback, global cache only), with cedar's own client code (doctored cache entry) and with hand-built frames; abstract classes (which character differs, where a cut falls) expand to concrete members (several in thorough, seeded in quick); non-trivial = more than one step")
 }
